@@ -52,6 +52,7 @@ import GocoinV.Proofs.C06Chain
 import GocoinV.Proofs.C06Commit
 import GocoinV.Proofs.C06Path
 import GocoinV.Proofs.C06Deliver
+import GocoinV.Proofs.C06Idx
 import GocoinV.Proofs.C06Order
 import GocoinV.Proofs.C06Example
 namespace GocoinV.Props.C06
@@ -280,19 +281,29 @@ theorem deleteBranch_keeps_map (c : Chain) (id : Nat) :
 
 -- ------------------------------------------------------------------------------------------ all histories
 
-/-- the invariant of the chain state w.r.t. the block tree `U` the deliveries are drawn from: the tree is well-formed
-(`TreeWF`), the unspent map is the replay of the active branch with tip / LastBlockHeight / links / stored blocks / every
-undo file consistent (`PathOK` with floor 0, tip node height = branch length), and the tip is a maximum-work node
-(`MaxWork`, exact rational work). -/
-structure ChainInv (U : List Block) (c : Chain) : Prop where
+/-- the invariant of the chain state w.r.t. the block tree `U` the deliveries are drawn from and the GHOST list `E` of the
+ids admitted so far (`Outcome.admitted`: every delivery that was not turned away as duplicate / orphan / too deep): the
+tree is well-formed (`TreeWF`); the unspent map is the replay of the active branch with tip / LastBlockHeight / links /
+stored blocks / every undo file consistent (`PathOK` with floor 0, tip node height = branch length); EVERY BLOCK OF THE
+ACTIVE BRANCH PASSED ITS SCRIPT ORACLE (`scripts`; maintained through `ext`: every block of the branch is stored with the
+trusted mark, and that mark is only ever set after `commitTxs` ran with the scripts checked); the tip is a maximum-work
+node (`MaxWork`, exact rational work); and the tree is COMPLETE (`complete`): every admitted block is a node of the
+tree, unless it or one of its ancestors fails `commitTxs` (scripts checked) on the replay of its parent's branch
+(`Excused` / `InvalidOnReplay`) — so `MaxWork`'s "every node of the tree" ranges over every admitted block whose
+whole branch is valid on replay (`tip_beats_every_valid_admitted_block`). -/
+structure ChainInv (U : List Block) (E : List Nat) (c : Chain) : Prop where
   wf : TreeWF U c
-  path : ∃ path, PathOK c 0 path ∧ ∃ t, getNode c c.tip = some t ∧ t.height = path.length
+  path : ∃ path, PathOK c 0 path ∧ (∃ t, getNode c c.tip = some t ∧ t.height = path.length) ∧
+    (∀ e ∈ path, scriptsPass e.txs = true) ∧ Ext c path
   maxw : MaxWork c
+  complete : Complete U c.root E c
 
-theorem chainInv_iff {U : List Block} {c : Chain} (hU : BlockTree c.root U) : ChainInv U c ↔ Inv U c := by
+theorem chainInv_iff {U : List Block} {E : List Nat} {c : Chain} (hU : BlockTree c.root U) :
+    ChainInv U E c ↔ Inv U c ∧ Complete U c.root E c := by
   constructor
-  · rintro ⟨w, hp, hm⟩; exact ⟨w, hp, (MaxW_iff w hU).mp hm⟩
-  · rintro ⟨w, hp, hm⟩; exact ⟨w, hp, (MaxW_iff w hU).mpr hm⟩
+  · rintro ⟨w, ⟨path, hp, ht, _, hx⟩, hm, hc⟩; exact ⟨⟨w, ⟨path, ⟨hp, ht⟩, hx⟩, (MaxW_iff w hU).mp hm⟩, hc⟩
+  · rintro ⟨⟨w, ⟨path, ⟨hp, ht⟩, hx⟩, hm⟩, hc⟩
+    exact ⟨w, ⟨path, hp, ht, hx.scripts hp.linked, hx⟩, (MaxW_iff w hU).mpr hm, hc⟩
 
 /-- **One delivery, any kind.** From a state satisfying the invariant, delivering ANY block of the block tree — a
 duplicate, an orphan, a block too deep below the tip, a tip extension (accepted, or rejected by any `commitTxs` error), a
@@ -302,12 +313,29 @@ node, no missing block or undo file, and the fuel `fuelOf` is never exhausted), 
 whole invariant: well-formed tree, unspent map = replay of the active branch, tip = a maximum-work node of the tree, and
 (c) moves the tip only to the delivered block itself or — outcome `moveFailed` — in the fall-back after a failed
 reorganisation. -/
-theorem deliver_keeps_invariant (U : List Block) (c : Chain) (hi : ChainInv U c) (hU : BlockTree c.root U)
+theorem deliver_keeps_invariant (U : List Block) (E : List Nat) (c : Chain) (hi : ChainInv U E c) (hU : BlockTree c.root U)
     (b : Block) (hb : b ∈ U) :
-    ChainInv U (deliver c b).1 ∧ (∀ s, (deliver c b).2 ≠ Outcome.panic s) ∧
+    ChainInv U (deliverG (c, E) b).2 (deliver c b).1 ∧ (∀ s, (deliver c b).2 ≠ Outcome.panic s) ∧
     ((deliver c b).1.tip = c.tip ∨ (deliver c b).1.tip = b.id ∨ (deliver c b).2 = Outcome.moveFailed) := by
-  obtain ⟨h1, h2, h3, h4⟩ := deliver_inv ((chainInv_iff hU).mp hi) hU b hb
-  exact ⟨(chainInv_iff (by rw [h2]; exact hU)).mpr h1, h3, h4⟩
+  obtain ⟨hi', hc⟩ := (chainInv_iff hU).mp hi
+  obtain ⟨h1, h2, h3, h4, _⟩ := deliver_inv hi' hU b hb
+  have hc1 := deliverG_complete hi' hU b hb E hc
+  exact ⟨(chainInv_iff (by rw [h2]; exact hU)).mpr ⟨h1, by rw [h2]; exact hc1⟩, h3, h4⟩
+
+/-- **Only invalid blocks and their descendants are ever removed, and an admitted block is in the tree or excused** (one
+delivery; part (a) of the invariant, stated for the step): from a state satisfying the invariant, (1) every node of the
+tree that is no longer a node after the delivery is `Excused` — it, or one of its ancestors in the block tree, fails
+`commitTxs` with the scripts checked on the replay of its parent's branch; (2) if the delivered block itself is not a node
+afterwards then it was turned away as an orphan (`later`: its parent was not a node) or as too deep, or it is excused
+(this covers a tip extension that `commitTxs` refuses, and a block deleted again together with an invalid ancestor in
+the reorganisation it triggered). -/
+theorem only_invalid_blocks_are_removed (U : List Block) (E : List Nat) (c : Chain) (hi : ChainInv U E c)
+    (hU : BlockTree c.root U) (b : Block) (hb : b ∈ U) :
+    (∀ x, (getNode c x).isSome = true → getNode (deliver c b).1 x = none → Excused U c.root x) ∧
+    (getNode (deliver c b).1 b.id = none →
+      (deliver c b).2 = Outcome.later ∨ (deliver c b).2 = Outcome.tooDeep ∨ Excused U c.root b.id) := by
+  obtain ⟨_, _, _, _, h5⟩ := deliver_inv ((chainInv_iff hU).mp hi).1 hU b hb
+  exact h5
 
 /-- **reorg_inv — after ANY sequence of deliveries.** Let `U` be a block tree (`BlockTree`: ids determine blocks, no
 empty block, valid bits, BIP30 freshness along every branch, no branch longer than the 2560-block unwind window) and `ds`
@@ -319,19 +347,132 @@ undo file in place — and the tip is a maximum-work node: no node of the tree (
 found invalid) has more cumulative work, compared exactly. -/
 theorem reorg_inv (r bits : Nat) (U ds : List Block) (hbits : bits % 0x1000000 ≠ 0) (hU : BlockTree r U)
     (hds : ∀ b ∈ ds, b ∈ U) :
-    ChainInv U (ds.foldl (fun c b => (deliver c b).1) (ChainTree.init r bits)) := by
-  obtain ⟨h1, h2⟩ := deliver_all_inv ds (ChainTree.init r bits) (init_inv U r bits hbits) hU hds
-  exact (chainInv_iff (by rw [h2]; exact hU)).mpr h1
+    ChainInv U (ds.foldl deliverG (ChainTree.init r bits, [])).2
+      (ds.foldl (fun c b => (deliver c b).1) (ChainTree.init r bits)) := by
+  obtain ⟨h1, h2, h3⟩ := deliverG_all ds (ChainTree.init r bits, []) (init_inv U r bits hbits) hU hds
+    (fun x hx => by cases hx)
+  rw [foldl_deliverG_fst] at h1 h2 h3
+  exact (chainInv_iff (by rw [h2]; exact hU)).mpr ⟨h1, by rw [h2]; exact h3⟩
 
 /-- **The tip is a maximum-work valid leaf** (second half of the property, for the model's exact rational work): after
-any sequence of deliveries drawn from a block tree, no node the chain knows has more cumulative work than the tip.
-(Nodes of the model's tree are exactly the known blocks that are fully stored and have not been found invalid: an
-invalid block is removed with its descendants when it is found. Work grows strictly along a branch, so "every node" and
-"every leaf" are the same statement.) Ties: see `tie_keeps_first_seen` and `tie_after_failed_reorg_counterexample`. -/
+any sequence of deliveries drawn from a block tree, no node of the tree has more cumulative work than the tip. Which
+blocks ARE nodes of the tree is the `complete` part of the invariant — see `tip_beats_every_valid_admitted_block`. (Work
+grows strictly along a branch, so "every node" and "every leaf" are the same statement.) Ties: see `tie_keeps_first_seen`
+and `tie_after_failed_reorg_counterexample`. -/
 theorem tip_has_max_work (r bits : Nat) (U ds : List Block) (hbits : bits % 0x1000000 ≠ 0) (hU : BlockTree r U)
     (hds : ∀ b ∈ ds, b ∈ U) :
     MaxWork (ds.foldl (fun c b => (deliver c b).1) (ChainTree.init r bits)) :=
   (reorg_inv r bits U ds hbits hU hds).maxw
+
+/-- **The tip has at least the work of every admitted block whose whole branch is valid** — `tip_has_max_work` restated
+over the delivered blocks instead of "the nodes currently in the tree": after any sequence of deliveries drawn from a block
+tree, every block `x` that was admitted on the way (its delivery was not turned away as duplicate / orphan / too deep) and
+is not `Excused` — neither it nor any of its ancestors fails `commitTxs`, scripts checked, on the replay of its parent's
+branch — is a node of the tree, and its cumulative work is not greater than the tip's. -/
+theorem tip_beats_every_valid_admitted_block (r bits : Nat) (U ds : List Block) (hbits : bits % 0x1000000 ≠ 0)
+    (hU : BlockTree r U) (hds : ∀ b ∈ ds, b ∈ U) (x : Nat)
+    (hx : x ∈ (ds.foldl deliverG (ChainTree.init r bits, [])).2)
+    (hvalid : ¬ Excused U (ds.foldl (fun c b => (deliver c b).1) (ChainTree.init r bits)).root x) :
+    ∃ t n, getNode (ds.foldl (fun c b => (deliver c b).1) (ChainTree.init r bits))
+             (ds.foldl (fun c b => (deliver c b).1) (ChainTree.init r bits)).tip = some t ∧
+      getNode (ds.foldl (fun c b => (deliver c b).1) (ChainTree.init r bits)) x = some n ∧
+      (workOf (ds.foldl (fun c b => (deliver c b).1) (ChainTree.init r bits)) n).gt
+        (workOf (ds.foldl (fun c b => (deliver c b).1) (ChainTree.init r bits)) t) = false := by
+  have hi := reorg_inv r bits U ds hbits hU hds
+  obtain ⟨t, ht, hmax⟩ := hi.maxw
+  rcases hi.complete x hx with h | h
+  · cases hn : getNode (ds.foldl (fun c b => (deliver c b).1) (ChainTree.init r bits)) x with
+    | none => rw [hn] at h; cases h
+    | some n => exact ⟨t, n, ht, rfl, hmax x n hn⟩
+  · exact absurd h hvalid
+
+/-- **Every block of the active branch passed its script oracle** (part (b) of the invariant): after any sequence of
+deliveries drawn from a block tree there is an active branch `path` — the one whose replay IS the unspent map — such that
+every non-coinbase transaction of every block of it has `scriptsOk` (the result of VerifyTxScript over its inputs; an
+input of this model, property C01). The replay itself (`replay`) skips scripts; this is what says they were run. -/
+theorem active_branch_scripts_valid (r bits : Nat) (U ds : List Block) (hbits : bits % 0x1000000 ≠ 0) (hU : BlockTree r U)
+    (hds : ∀ b ∈ ds, b ∈ U) :
+    ∃ path, PathOK (ds.foldl (fun c b => (deliver c b).1) (ChainTree.init r bits)) 0 path ∧
+      ∀ e ∈ path, scriptsPass e.txs = true := by
+  obtain ⟨path, hp, _, hs, _⟩ := (reorg_inv r bits U ds hbits hU hds).path
+  exact ⟨path, hp, hs⟩
+
+/-- the replay with scripts skipped and `scriptsPass` together are the replay with scripts checked: a block that
+`commitTxs` accepts with `trusted = true` and whose scripts all pass is accepted, with the same changes, with
+`trusted = false`; and acceptance with the scripts checked implies `scriptsPass`. -/
+theorem commitTxs_checked_iff (u : DB) (h rwd : Nat) (txs : List Tx) (ch : Changes) :
+    commitTxs u h rwd false txs = .ok ch ↔ (commitTxs u h rwd true txs = .ok ch ∧ scriptsPass txs = true) := by
+  constructor
+  · intro hok
+    refine ⟨?_, commitTxs_false_scripts u h rwd txs ch hok⟩
+    cases ht : commitTxs u h rwd true txs with
+    | error e =>
+      obtain ⟨e', he'⟩ := commitTxs_error_false u h rwd true txs e ht
+      rw [hok] at he'; cases he'
+    | ok ch' =>
+      unfold commitTxs at hok ht
+      simp only [bind, Except.bind, pure, Except.pure] at hok ht
+      split at hok
+      · simp only [throw, throwThe, MonadExceptOf.throw] at hok; cases hok
+      · rename_i hne
+        simp only [hne, Bool.false_eq_true, if_false] at ht
+        split at hok
+        · cases hok
+        · rename_i r0 hr0
+          simp only [hr0] at ht
+          obtain ⟨st, sin, sout, ok⟩ := r0
+          simp only [Bool.not_false, Bool.true_and, Bool.not_true, Bool.false_and, Bool.false_eq_true, if_false] at hok ht
+          split at hok
+          · simp only [throw, throwThe, MonadExceptOf.throw] at hok; cases hok
+          · split at hok
+            · simp only [throw, throwThe, MonadExceptOf.throw] at hok; cases hok
+            · rename_i hlt
+              simp only [hlt, if_false] at ht
+              rw [← ht, ← hok]
+  · rintro ⟨hok, hs⟩
+    cases hf : commitTxs u h rwd false txs with
+    | ok ch' =>
+      unfold commitTxs at hok hf
+      simp only [bind, Except.bind, pure, Except.pure] at hok hf
+      split at hok
+      · simp only [throw, throwThe, MonadExceptOf.throw] at hok; cases hok
+      · rename_i hne
+        simp only [hne, Bool.false_eq_true, if_false] at hf
+        split at hok
+        · cases hok
+        · rename_i r0 hr0
+          simp only [hr0] at hf
+          obtain ⟨st, sin, sout, ok⟩ := r0
+          simp only [Bool.not_false, Bool.true_and, Bool.not_true, Bool.false_and, Bool.false_eq_true, if_false] at hok hf
+          split at hf
+          · simp only [throw, throwThe, MonadExceptOf.throw] at hf; cases hf
+          · split at hok
+            · simp only [throw, throwThe, MonadExceptOf.throw] at hok; cases hok
+            · rename_i hlt
+              simp only [hlt, if_false] at hf
+              rw [← hf, ← hok]
+    | error e =>
+      exfalso
+      unfold commitTxs at hok hf
+      simp only [bind, Except.bind, pure, Except.pure] at hok hf
+      split at hok
+      · simp only [throw, throwThe, MonadExceptOf.throw] at hok; cases hok
+      · rename_i hne
+        simp only [hne, Bool.false_eq_true, if_false] at hf
+        split at hok
+        · cases hok
+        · rename_i r0 hr0
+          simp only [hr0] at hf
+          obtain ⟨st, sin, sout, ok⟩ := r0
+          have hflag := procTxs_flag u h txs true _ st sin sout ok hr0
+          have hok' : ok = true := by rw [hflag]; exact hs
+          subst hok'
+          simp only [Bool.not_false, Bool.true_and, Bool.not_true, Bool.false_and, Bool.false_eq_true, if_false] at hok hf
+          split at hok
+          · simp only [throw, throwThe, MonadExceptOf.throw] at hok; cases hok
+          · rename_i hlt
+            simp only [hlt, if_false] at hf
+            cases hf
 
 /-- **First seen wins ties when a block is delivered**: a side block whose cumulative work (its parent's work plus its own
 difficulty, exact) is NOT strictly greater than the tip's leaves the tip where it is — so among equal-work branches the
@@ -339,12 +480,12 @@ one that was there first stays, until a delivery with strictly more work arrives
 the fall-back after a FAILED reorganisation, `deliver_keeps_invariant` (c); there FindFarthestNode's first-child rule
 decides ties — `tie_after_failed_reorg_counterexample`, known finding; the code's float64 sums are outside the model —
 known finding float-work-exact-tie.) -/
-theorem tie_keeps_first_seen (U : List Block) (c : Chain) (hi : ChainInv U c) (hU : BlockTree c.root U)
+theorem tie_keeps_first_seen (U : List Block) (E : List Nat) (c : Chain) (hi : ChainInv U E c) (hU : BlockTree c.root U)
     (b : Block) (hb : b ∈ U) (p t : Node) (hnew : getNode c b.id = none) (hp : getNode c b.parent = some p)
     (ht : getNode c c.tip = some t) (hside : c.tip ≠ b.parent)
     (hle : ((workOf c p).add (difficulty b.bits)).gt (workOf c t) = false) :
     (deliver c b).1.tip = c.tip :=
-  deliver_keeps_tip ((chainInv_iff hU).mp hi) hU b hb p t hnew hp ht hside hle
+  deliver_keeps_tip ((chainInv_iff hU).mp hi).1 hU b hb p t hnew hp ht hside hle
 
 /-- **failed_reorg_no_residue (full).** From any state satisfying the invariant, `MoveToBlock(dst)` for any node `dst`
 of the tree — run with the fuel a delivery gives it — does not panic, and the state it ends in satisfies "unspent map =
@@ -353,12 +494,14 @@ are there, nothing of a block that failed to connect or of its descendants remai
 tree is well-formed, and either the target was reached with the tree untouched or — a block on the way failed, was
 deleted with its descendants, and the fall-back ran — the tip is a maximum-work node of the remaining tree. -/
 theorem failed_reorg_no_residue (U : List Block) (c : Chain) (w : TreeWF U c) (path : List PE)
-    (hp : PathOK c 0 path) (t : Node) (ht : getNode c c.tip = some t) (hth : t.height = path.length)
+    (hp : PathOK c 0 path) (hx : Ext c path) (t : Node) (ht : getNode c c.tip = some t) (hth : t.height = path.length)
     (hU : BlockTree c.root U) (dst : Nat) (d : Node) (hd : getNode c dst = some d) :
     ∃ c' path', moveTo (fuelOf c) c dst = .ok c' ∧ PathOK c' 0 path' ∧ c'.tip = headId c' path' ∧ TreeWF U c' ∧
-      ((c'.tip = dst ∧ c'.nodes = c.nodes) ∨ MaxWork c') := by
-  obtain ⟨c', path', g1, g2, g3, g4, g5⟩ := (reorg_specs U (fuelOf c)).2.2 c dst d path w ⟨hp, t, ht, hth⟩ hU hd (fuelOf_enough c)
-  refine ⟨c', path', g1, g3.1, g3.1.tip, g2, ?_⟩
+      ((c'.tip = dst ∧ c'.nodes = c.nodes) ∨ MaxWork c') ∧
+      (∀ e ∈ path', scriptsPass e.txs = true) ∧ Lost U c.root c c' := by
+  obtain ⟨c', path', g1, g2, g3, g4, g5, g6, g7⟩ :=
+    (reorg_specs U (fuelOf c)).2.2 c dst d path w ⟨hp, t, ht, hth⟩ hx hU hd (fuelOf_enough c)
+  refine ⟨c', path', g1, g3.1, g3.1.tip, g2, ?_, g6.scripts g3.1.linked, g7⟩
   rcases g5 with h | h
   · exact Or.inl h
   · exact Or.inr ((MaxW_iff g2 (by rw [g4]; exact hU)).mpr h)
@@ -463,6 +606,44 @@ theorem sibling_order_after_delete_example :
     (runAll siblingDeliveries).tip = 6 ∧ (getNode (runAll siblingDeliveries) 3).isNone = true := by
   decide +kernel
 
+-- ------------------------------------------------------------------------------------------ block look-ups (8-byte index key)
+
+/-- **The code's block look-ups are look-ups by whole hash.** `deliverIdx` is what the oracle runs and the harness compares
+with CheckBlock + AcceptBlock: the "already in" test and the parent look-up of PreCheckBlock / AcceptHeader go through
+`BlockIndex`, keyed by the first 8 bytes of a hash (`bidx`), and then compare the WHOLE hash (fix 533896f3). It equals
+`deliver` — the definition all theorems above are about, which finds blocks by their whole id — whenever no node of the
+tree shares the 8-byte key of the delivered block's hash, or of its previous-block field, without being that block
+(`KeyOK`). What `KeyOK` excludes for the previous-block field is covered unconditionally by
+`prefix_only_parent_is_unknown`; what it excludes for the block's own hash is two different BLOCKS with the same first 8 hash
+bytes (about 2^64 hash evaluations on top of the proof of work; `deliverIdx` answers `index-collision`). -/
+theorem deliverIdx_is_deliver (c : Chain) (b : Block) (h1 : KeyOK c b.id) (h2 : KeyOK c b.parent) :
+    deliverIdx c b = deliver c b :=
+  deliverIdx_eq_deliver c b h1 h2
+
+/-- **A previous-block field that shares only its 8-byte index key with a known block names an unknown parent**: for any
+state and any block whose own key is free, if the entry found under the key of its previous-block field has another
+whole id, the block is turned away as an orphan (`later`) and the state is unchanged — it is NOT linked under that entry
+(which is what the code did before fix 533896f3: the header field is free data, no hash grinding is needed). -/
+theorem prefix_only_parent_is_unknown (c : Chain) (b : Block) (p : Node) (hnew : lookupIdx c b.id = none)
+    (hp : lookupIdx c b.parent = some p) (hne : p.id ≠ b.parent) : deliverIdx c b = (c, Outcome.later) :=
+  deliverIdx_prefix_only_parent c b p hnew hp hne
+
+-- non-vacuity: root hash 5·2^192+7; a block naming 5·2^192+8 (same first 8 bytes) is an orphan, the same block naming the
+-- root is connected; `KeyOK` holds for the latter
+example :
+    let c := ChainTree.init (5 * 2 ^ 192 + 7) easyBits
+    let good : Block := { id := 9 * 2 ^ 192 + 1, parent := 5 * 2 ^ 192 + 7, bits := easyBits, txs := [cbTx 1001] }
+    let twin : Block := { good with id := 9 * 2 ^ 192 + 2, parent := 5 * 2 ^ 192 + 8 }
+    bidx twin.parent = bidx c.root ∧ (lookupIdx c twin.parent).map (·.id) = some c.root ∧ lookupIdx c twin.id = none ∧
+    (deliverIdx c twin).2.name = "later" ∧ (deliverIdx c twin).1.tip = c.root ∧
+    (deliverIdx c good).2.name = "ok" ∧ (deliverIdx c good).1.tip = good.id ∧
+    (deliver c twin).2.name = "later" := by
+  decide +kernel
+
+example : KeyOK (ChainTree.init (5 * 2 ^ 192 + 7) easyBits) (9 * 2 ^ 192 + 1) ∧
+    KeyOK (ChainTree.init (5 * 2 ^ 192 + 7) easyBits) (5 * 2 ^ 192 + 7) := by
+  constructor <;> intro n hn hk <;> simp [ChainTree.init] at hn <;> subst hn <;> revert hk <;> decide
+
 -- non-vacuity of the hypotheses used above
 example : ∃ u txids ch, validChangesB u txids ch = true ∧ ch.deled ≠ [] :=
   ⟨[{ txid := 7, height := 1, coinbase := true, outs := [some ⟨50, "51"⟩, some ⟨60, "00"⟩] }], [8],
@@ -519,7 +700,8 @@ example : exBits % 0x1000000 ≠ 0 ∧ BlockTree 0 exU ∧ (∀ b ∈ exU, b ∈
     (exRun exU).tip = 2 ∧ ((exRun exU).nodes.map (·.id)) = [0, 1, 2] :=
   ⟨by decide, exU_blockTree, fun _ h => h, by decide +kernel, by decide +kernel, by decide +kernel, by decide +kernel⟩
 
-theorem exInv (ds : List Block) (h : ∀ b ∈ ds, b ∈ exU) : ChainInv exU (exRun ds) :=
+theorem exInv (ds : List Block) (h : ∀ b ∈ ds, b ∈ exU) :
+    ChainInv exU (ds.foldl deliverG (ChainTree.init 0 exBits, [])).2 (exRun ds) :=
   reorg_inv 0 exBits exU ds (by decide) exU_blockTree h
 
 theorem exRoot (ds : List Block) (h : ∀ b ∈ ds, b ∈ exU) : (exRun ds).root = 0 :=
@@ -528,22 +710,81 @@ theorem exRoot (ds : List Block) (h : ∀ b ∈ ds, b ∈ exU) : (exRun ds).root
 theorem exTake (n : Nat) : ∀ b ∈ exU.take n, b ∈ exU := fun _ h => List.mem_of_mem_take h
 
 -- deliver_keeps_invariant: a state with the invariant, the block tree, and a block that triggers the failed reorganisation
-example : ∃ (c : Chain) (b : Block), ChainInv exU c ∧ BlockTree c.root exU ∧ b ∈ exU ∧ (deliver c b).2.name = "movefailed" :=
-  ⟨exRun (exU.take 3), exU.getD 3 default, exInv _ (exTake 3), by rw [exRoot _ (exTake 3)]; exact exU_blockTree,
+example : ∃ (E : List Nat) (c : Chain) (b : Block), ChainInv exU E c ∧ BlockTree c.root exU ∧ b ∈ exU ∧ (deliver c b).2.name = "movefailed" :=
+  ⟨_, exRun (exU.take 3), exU.getD 3 default, exInv _ (exTake 3), by rw [exRoot _ (exTake 3)]; exact exU_blockTree,
    by simp [exU], by decide +kernel⟩
 
+-- completeness (`ChainInv.complete`, only_invalid_blocks_are_removed, tip_beats_every_valid_admitted_block): in the history
+-- x1, a2, b2, b3 all four blocks are admitted; b2 (id 3) and b3 (id 4) are no longer nodes at the end — and they are excused:
+-- b2 spends an unknown output, so it fails `commitTxs` on the replay of [x1]; b3 is its child
+theorem exExcused3 : InvalidOnReplay exU 0 { id := 3, parent := 1, bits := exBits, txs := exT3 } :=
+  ⟨[⟨1, exT1⟩], _, .unknownInput,
+   ⟨⟨{ id := 1, parent := 0, bits := exBits, txs := exT1 }, by simp [exU], rfl, rfl, rfl⟩, trivial⟩, rfl, rfl, rfl⟩
+
+example : (exU.foldl deliverG (ChainTree.init 0 exBits, [])).2 = [4, 3, 2, 1] ∧
+    ((exRun exU).nodes.map (·.id)) = [0, 1, 2] ∧ Excused exU 0 3 ∧ Excused exU 0 4 :=
+  ⟨by decide +kernel, by decide +kernel,
+   ⟨_, by simp [exU], UAnc.refl, exExcused3⟩,
+   ⟨{ id := 3, parent := 1, bits := exBits, txs := exT3 }, by simp [exU],
+     UAnc.step (b := { id := 4, parent := 3, bits := exBits, txs := exT4 }) (by simp [exU]) UAnc.refl, exExcused3⟩⟩
+
+-- … and x1 (id 1) is NOT excused (the hypothesis `¬ Excused` of tip_beats_every_valid_admitted_block is satisfiable): its
+-- only ancestor-or-self in exU is x1 itself, whose branch below is empty, and `commitTxs` accepts it on the empty map
+theorem exUAnc01 {a x : Nat} (h : UAnc exU a x) : (x = 1 ∨ x = 0) → (a = 1 ∨ a = 0) := by
+  induction h with
+  | refl => exact id
+  | @step b hb _ ih =>
+    intro hx
+    simp only [exU, List.mem_cons, List.mem_nil_iff, or_false] at hb
+    rcases hb with rfl | rfl | rfl | rfl
+    · exact ih (Or.inr rfl)
+    all_goals (rcases hx with hx | hx <;> simp at hx)
+
+theorem exNotExcused1 : ¬ Excused exU 0 1 := by
+  rintro ⟨b, hb, hanc, p, u, e, hp, hh, hr, herr⟩
+  have hb1 := exUAnc01 hanc (Or.inl rfl)
+  simp only [exU, List.mem_cons, List.mem_nil_iff, or_false] at hb
+  rcases hb with rfl | rfl | rfl | rfl
+  · have := exU_head0 hp hh
+    subst this
+    simp only [replay, Option.some.injEq] at hr
+    subst hr
+    have h2 : commitTxs ([] : DB) (([] : List PE).length + 1) (reward (([] : List PE).length + 1)) false exT1 = .ok _ := rfl
+    rw [h2] at herr
+    cases herr
+  all_goals (rcases hb1 with h | h <;> simp at h)
+
+example : ∃ x, x ∈ (exU.foldl deliverG (ChainTree.init 0 exBits, [])).2 ∧ ¬ Excused exU (exRun exU).root x :=
+  ⟨1, by decide +kernel, by rw [exRoot exU (fun _ h => h)]; exact exNotExcused1⟩
+
+-- scripts (`ChainInv.path … scripts`, active_branch_scripts_valid): a block whose second transaction fails its script oracle
+-- is refused on the tip with `err:scripts` and does not become a node; delivered as a side block and then made the heavier
+-- branch by a child, the reorganisation fails at it (`movefailed`), it is removed with the child, and the tip stays
+def sxSpend (ok : Bool) : Tx := { txid := 2001, ins := [{ txid := 1001, vout := 0 }], outs := [{ value := 1, script := "51" }], scriptsOk := ok }
+def sxBlocks : List Block :=
+  [ { id := 1001, parent := 100, bits := easyBits, txs := [cbTx 1001] } ] ++
+  (List.range 100).map (fun i => { id := 1002 + i, parent := 1001 + i, bits := easyBits, txs := [cbTx (1002 + i)] }) ++
+  [ { id := 2000, parent := 1101, bits := easyBits, txs := [cbTx 5000, sxSpend false] } ]
+
+theorem script_failure_example :
+    (deliver (runAll (sxBlocks.take 101)) (sxBlocks.getD 101 default)).2.name = "err:scripts" ∧
+    (getNode (runAll sxBlocks) 2000).isNone = true ∧ (runAll sxBlocks).tip = 1101 ∧
+    scriptsPass [cbTx 5000, sxSpend false] = false ∧ scriptsPass [cbTx 5000, sxSpend true] = true ∧
+    (deliver (runAll (sxBlocks.take 101)) { id := 2000, parent := 1101, bits := easyBits, txs := [cbTx 5000, sxSpend true] }).2.name = "ok" := by
+  decide +kernel
+
 -- tie_keeps_first_seen: after x1, a2 the block b2 (same work as the tip a2) arrives on the side branch
-example : ∃ (c : Chain) (b : Block) (p t : Node), ChainInv exU c ∧ BlockTree c.root exU ∧ b ∈ exU ∧
+example : ∃ (E : List Nat) (c : Chain) (b : Block) (p t : Node), ChainInv exU E c ∧ BlockTree c.root exU ∧ b ∈ exU ∧
     getNode c b.id = none ∧ getNode c b.parent = some p ∧ getNode c c.tip = some t ∧ c.tip ≠ b.parent ∧
     ((workOf c p).add (difficulty b.bits)).gt (workOf c t) = false :=
-  ⟨exRun (exU.take 2), exU.getD 2 default, _, _, exInv _ (exTake 2), by rw [exRoot _ (exTake 2)]; exact exU_blockTree,
+  ⟨_, exRun (exU.take 2), exU.getD 2 default, _, _, exInv _ (exTake 2), by rw [exRoot _ (exTake 2)]; exact exU_blockTree,
    by simp [exU], by decide +kernel, by rfl, by rfl, by decide +kernel, by decide +kernel⟩
 
 -- failed_reorg_no_residue / morePOW_compares_work / farthest_is_max_work: the state after x1, a2, b2, b3-less: MoveToBlock(b2)
-example : ∃ (c : Chain) (path : List PE) (t d r : Node), TreeWF exU c ∧ PathOK c 0 path ∧ getNode c c.tip = some t ∧
+example : ∃ (c : Chain) (path : List PE) (t d r : Node), TreeWF exU c ∧ PathOK c 0 path ∧ Ext c path ∧ getNode c c.tip = some t ∧
     t.height = path.length ∧ BlockTree c.root exU ∧ getNode c 3 = some d ∧ getNode c c.root = some r := by
-  obtain ⟨w, ⟨path, hp, t, ht, hth⟩, _⟩ := exInv (exU.take 3) (exTake 3)
-  exact ⟨exRun (exU.take 3), path, t, _, _, w, hp, ht, hth, by rw [exRoot _ (exTake 3)]; exact exU_blockTree, by rfl, by rfl⟩
+  obtain ⟨w, ⟨path, hp, ⟨t, ht, hth⟩, _, hx⟩, _, _⟩ := exInv (exU.take 3) (exTake 3)
+  exact ⟨exRun (exU.take 3), path, t, _, _, w, hp, hx, ht, hth, by rw [exRoot _ (exTake 3)]; exact exU_blockTree, by rfl, by rfl⟩
 
 -- deleteBranch_keeps_sibling_order / deleteBranch_parent_keeps_order: the state after x1, a2, b2 (b2 = id 3 stored aside, x1 lists
 -- [2, 3]); removing b2: hypotheses hold for y = root, and the parent x1 keeps [2]
